@@ -272,7 +272,7 @@ func (e *Enc) instr(fr *Frame, b *ssa.BasicBlock, idx int, in ssa.Instruction, s
 			key := "M|" + typeKey(et) + l.Path
 			e.set(st, key, l.Sort, sto(e.get(st, key, l.Sort), r, ArrS(l.Sort).Zero()), r)
 		}
-		e.allocNote(fr, st, reach, x, ln, et)
+		e.allocNote(fr, st, reach, x, cp, et)
 		fr.env[x] = Val{T: x.Type(), L: []string{r, c64(0), e.define("len", bv64, ln), e.define("cap", bv64, cp)}}
 	case *ssa.MakeMap, *ssa.MakeChan:
 		fr.env[x.(ssa.Value)] = Val{T: x.(ssa.Value).Type(), L: []string{e.newRef(st)}}
